@@ -34,6 +34,8 @@
 (*   EndNormalized     (cap >= d) the last split of a sweep cannot truncate,*)
 (*                     so the reported sweep-end energy is the normalised   *)
 (*                     one; for cap < d this FAILS: known finding KF-C10-2  *)
+(*                     (one-site sweeps that were not re-canonized after    *)
+(*                     the bond expansion are the named deviation KF-C10-3) *)
 (*   WiringMatchesApply the energy network attaches the ket to the operator *)
 (*                     leg that MPO.apply contracts with a ket; FAILS at    *)
 (*                     the pinned commit: known finding KF-C10-1            *)
@@ -60,11 +62,12 @@ VARIABLES L, bsz, mode, b0,
           erep,      \* [sv, norm]: state version the last tot_en was computed from; was that state normalised
           energies,  \* DMRG.energies as a sequence of such stamps
           chk,       \* verdicts of the checks made when the last local problem / tot_en was formed
+          pad,       \* the bond expansion of this sweep broke the canonical form and nothing repaired it (KF-C10-3)
           wire,      \* which index family each layer of the energy network TN_energy = b | ham | k carries
           script, sites  \* history (for the replay cases)
 
 vars == <<L, bsz, mode, b0, phase, nsw, prev, dir, canon, cap, capmax, todo, done, ver, sver, form, bond,
-          me, erep, energies, chk, wire, script, sites>>
+          me, erep, energies, chk, pad, wire, script, sites>>
 
 Sites == 0..(L - 1)
 Stop == L - bsz + 1                      \* the open-boundary segment is range(0, L - bsz + 1)
@@ -153,6 +156,7 @@ Init ==
   /\ form = [s \in Sites |-> "X"]
   /\ bond = [j \in 1..(L - 1) |-> b0]
   /\ me = NoME /\ erep = [sv |-> -1, norm |-> TRUE] /\ energies = <<>> /\ chk = ChkOK
+  /\ pad = FALSE
   /\ wire = Align(<<"vec", "op", "vec">>)        \* DMRG.__init__: self._k.align_(self.ham, self._b)
   /\ script = <<>> /\ sites = <<>>
 
@@ -167,16 +171,21 @@ StartSweep(d, c, cp) ==
          expand == bsz = 1 /\ mode = "solve"
          b1 == IF expand THEN [j \in 1..(L - 1) |-> Max2(bond[j], cp)] ELSE bond
          v1 == IF expand THEN BumpAll(ver) ELSE ver
+         \* padding a bond with noise leaves the two tensors on it non-isometric in the new directions
+         pads == expand /\ \E j \in 1..(L - 1) : bond[j] < cp
+         f1 == IF ~pads THEN form
+               ELSE [s \in Sites |-> IF (s >= 1 /\ bond[s] < cp) \/ (s <= L - 2 /\ bond[s + 1] < cp) THEN "X" ELSE form[s]]
          \* sweep: canonize first
          b2 == IF ~c THEN b1 ELSE IF d = "R" THEN RCanonBonds(b1, L - 1) ELSE LCanonBonds(b1, 1)
          v2 == IF c THEN BumpAll(v1) ELSE v1
-         f2 == IF ~c THEN form
+         f2 == IF ~c THEN f1
                ELSE IF d = "R" THEN [s \in Sites |-> IF s = 0 THEN "X" ELSE "R"]
                ELSE [s \in Sites |-> IF s = L - 1 THEN "X" ELSE "L"]
          begin == IF d = "R" THEN "left" ELSE "right"
          \* a fresh MovingEnvironment is built from the tensors as they are *after* canonization
          vbuild == IF Mutant = "env_before_canon" THEN v1 ELSE v2
      IN /\ bond' = b2 /\ ver' = v2 /\ form' = f2
+        /\ pad' = (pads /\ ~c)
         /\ me' = IF Mutant = "reuse_env" /\ me.begin = begin
                  THEN [me EXCEPT !.pos = IF begin = "left" THEN 0 ELSE Stop - 1]
                  ELSE InitSegment(begin, vbuild)
@@ -186,13 +195,13 @@ StartSweep(d, c, cp) ==
   /\ dir' = d /\ canon' = c /\ cap' = cp /\ capmax' = Max2(capmax, cp)
   /\ done' = <<>> /\ phase' = "sweep"
   /\ script' = Append(script, [dir |-> d, canon |-> c, cap |-> cp])
-  /\ UNCHANGED <<wire, L, bsz, mode, b0, nsw, prev, sver, erep, energies, chk, sites>>
+  /\ UNCHANGED <<wire, L, bsz, mode, b0, nsw, prev, sver, erep, energies, chk, sites>>  \* pad is set above
 
 \* one step of move_to(i) towards the next site of the sweep
 Move ==
   /\ phase = "sweep" /\ todo # <<>> /\ ~me.err /\ me.pos # Head(todo)
   /\ me' = IF Head(todo) < me.pos THEN MoveLeft(me, ver) ELSE MoveRight(me, ver)
-  /\ UNCHANGED <<wire, L, bsz, mode, b0, phase, nsw, prev, dir, canon, cap, capmax, todo, done, ver, sver, form, bond,
+  /\ UNCHANGED <<pad, wire, L, bsz, mode, b0, phase, nsw, prev, dir, canon, cap, capmax, todo, done, ver, sver, form, bond,
                  erep, energies, chk, script, sites>>
 
 \* _update_local_state_1site(i): eigen-solve on envs[i], insert into k[i]/b[i], tot_en = eff_ham ^ all,
@@ -218,7 +227,7 @@ LocalUpdate1 ==
                    ELSE IF goL THEN [bond EXCEPT ![i] = Min2(bond[i], D * BR(bond, i))]
                    ELSE bond
         /\ done' = Append(done, i) /\ todo' = Tail(todo)
-  /\ UNCHANGED <<wire, L, bsz, mode, b0, phase, nsw, prev, dir, canon, cap, capmax, me, energies, script, sites>>
+  /\ UNCHANGED <<pad, wire, L, bsz, mode, b0, phase, nsw, prev, dir, canon, cap, capmax, me, energies, script, sites>>
 
 \* _update_local_state_2site(i): eigen-solve for sites (i, i+1), split with absorb = direction,
 \* max_bond = cap, no renormalisation; tot_en = eff_ham ^ all afterwards
@@ -239,7 +248,7 @@ LocalUpdate2 ==
                    ELSE [form EXCEPT ![i] = "X", ![i + 1] = "R"]
         /\ bond' = [bond EXCEPT ![i + 1] = r]
         /\ done' = Append(done, i) /\ todo' = Tail(todo)
-  /\ UNCHANGED <<wire, L, bsz, mode, b0, phase, nsw, prev, dir, canon, cap, capmax, me, energies, script, sites>>
+  /\ UNCHANGED <<pad, wire, L, bsz, mode, b0, phase, nsw, prev, dir, canon, cap, capmax, me, energies, script, sites>>
 
 \* end of DMRG.sweep / the bookkeeping of DMRG.solve: energies.append(tot_ens[-1])
 EndSweep ==
@@ -247,14 +256,14 @@ EndSweep ==
   /\ energies' = Append(energies, erep)
   /\ nsw' = nsw + 1 /\ prev' = dir /\ phase' = "idle"
   /\ sites' = Append(sites, done)
-  /\ UNCHANGED <<wire, L, bsz, mode, b0, dir, canon, cap, capmax, todo, done, ver, sver, form, bond, me, erep, chk, script>>
+  /\ UNCHANGED <<pad, wire, L, bsz, mode, b0, dir, canon, cap, capmax, todo, done, ver, sver, form, bond, me, erep, chk, script>>
 
 Finish ==
   /\ phase = "idle" /\ nsw >= 1
   /\ phase' = "done"
   /\ Emit => PrintT(<<"QVJSON", ToJson([L |-> L, bsz |-> bsz, mode |-> mode, b0 |-> b0, script |-> script,
                                          sites |-> sites, bonds |-> [j \in 1..(L - 1) |-> bond[j]]])>>)
-  /\ UNCHANGED <<wire, L, bsz, mode, b0, nsw, prev, dir, canon, cap, capmax, todo, done, ver, sver, form, bond,
+  /\ UNCHANGED <<pad, wire, L, bsz, mode, b0, nsw, prev, dir, canon, cap, capmax, todo, done, ver, sver, form, bond,
                  me, erep, energies, chk, script, sites>>
 
 Next == \/ \E d \in {"R", "L"}, c \in BOOLEAN, cp \in Caps : StartSweep(d, c, cp)
@@ -264,7 +273,10 @@ Spec == Init /\ [][Next]_vars
 
 (* ------------------------- property-level invariants ------------------- *)
 NoStaleEnv == chk.fresh /\ chk.totfresh
-CanonAtUpdate == chk.canonok
+\* named deviation KF-C10-3: solve() does not canonize an alternate sweep although expand_bond_dimension
+\* has just padded the bonds of a one-site state; in that sweep the blocks are not isometric
+CanonAtUpdate == chk.canonok \/ pad
+CanonAtUpdateAlways == chk.canonok                                                      \* FAILS: KF-C10-3
 PosInRange == me.begin # "none" => (~me.err /\ me.pos \in 0..(L - bsz))
 \* what has been updated so far in this sweep is a prefix of the documented order, without repetition;
 \* a completed sweep visited every block exactly once
